@@ -2,8 +2,9 @@
   C01 — Encode then decode returns the original bytes for every tolerated erasure set.
 
   `roundtrip`        (any backend satisfying the encode/decode contracts) for every instance
-                     creation can return, every input up to 2^31-2^12 bytes (any content, length 0
-                     included), every list of fragments drawn from the encoded stripe — any order,
+                     creation can return, every input `encode` accepts (any content, length 0
+                     included; `encode` refuses exactly the lengths with
+                     `len + k*(w/8) + 80 > INT_MAX`, see C13 `encode_guard_exact`), every list of fragments drawn from the encoded stripe — any order,
                      duplicates, surplus — whose missing indexes are within the code's tolerance,
                      with or without forced metadata checks, with either checksum type and either
                      CRC variant: decode returns exactly the input.  16-byte alignment is not a
@@ -15,6 +16,8 @@
                      (LecProofs.GF16Field / MDS / GaussJordan / RSCorrect / RSBackend).
   `roundtrip_xor`    every generated flat-XOR table meets them with tolerance "fewer than hd"
                      (kernel-decided per table over the tables regenerated from the C header).
+  `roundtrip_rs_small`, `roundtrip_xor_small`  the same with the earlier, stronger hypothesis
+                     `data.length < 2^31 - 2^12` (corollaries).
 -/
 import LecProofs.Instances
 import LecProofs.XorContracts
@@ -41,33 +44,46 @@ theorem roundtrip (env : Env) (be : Backend) (i : Inst) (data : Bytes) (enc frag
 /-- Reed–Solomon Vandermonde, every accepted shape. -/
 theorem roundtrip_rs (env : Env) (k m ct : Nat) (hk : 1 ≤ k) (hkm : k + m ≤ 32) (hct : ct < 256)
     (hlv : env.libver < 2 ^ 32) (hl0 : env.libver ≠ 0)
-    (data : Bytes) (hlen : data.length < 2 ^ 31 - 2 ^ 12) :
+    (data : Bytes) (hg : encodeTooLarge (rsInst k m ct) data.length = false) :
     ∃ enc, encode env (rsBackend (genEntry k) k m) (rsInst k m ct) data = .ok enc ∧
       ∀ frags : List Bytes, (∀ f ∈ frags, f ∈ enc) → (missingOfStripe enc frags).length ≤ m →
         k ≤ frags.length → ∀ force,
         decode env (rsBackend (genEntry k) k m) (rsInst k m ct) frags
           (80 + blockSize (rsInst k m ct) data.length) force = .ok data := by
-  obtain ⟨enc, henc⟩ := rs_encode_exists env k m ct hk hkm data
+  obtain ⟨enc, henc⟩ := rs_encode_exists env k m ct hk hkm data hg
   refine ⟨enc, henc, ?_⟩
   intro frags hsub hmiss hn force
   exact roundtrip env _ (rsInst k m ct) data enc frags (rs_encodeOK k m) (rs_decodeOK (by omega))
-    (blockSize_even _ _ hk rfl) (rs_frontOK env k m ct data.length hk hkm hct hlv hl0 hlen)
+    (blockSize_even _ _ hk rfl) (rs_frontOK_guard env k m ct data.length hk hkm hct hlv hl0 hg)
     (by simp [rsBackend, rsInst]) henc hsub hmiss hmiss hn force
 
-/-- the front end's encode succeeds for every generated flat-XOR table. -/
-theorem xor_encode_exists (env : Env) (T : XorTable) (ct : Nat) (data : Bytes) :
+/-- `roundtrip_rs` under the earlier hypothesis on the length. -/
+theorem roundtrip_rs_small (env : Env) (k m ct : Nat) (hk : 1 ≤ k) (hkm : k + m ≤ 32) (hct : ct < 256)
+    (hlv : env.libver < 2 ^ 32) (hl0 : env.libver ≠ 0)
+    (data : Bytes) (hlen : data.length < 2 ^ 31 - 2 ^ 12) :
+    ∃ enc, encode env (rsBackend (genEntry k) k m) (rsInst k m ct) data = .ok enc ∧
+      ∀ frags : List Bytes, (∀ f ∈ frags, f ∈ enc) → (missingOfStripe enc frags).length ≤ m →
+        k ≤ frags.length → ∀ force,
+        decode env (rsBackend (genEntry k) k m) (rsInst k m ct) frags
+          (80 + blockSize (rsInst k m ct) data.length) force = .ok data :=
+  roundtrip_rs env k m ct hk hkm hct hlv hl0 data (rs_guard_of_small k m ct data.length hk hkm hlen)
+
+/-- the front end's encode succeeds for every generated flat-XOR table on every input the size
+    guard lets through. -/
+theorem xor_encode_exists (env : Env) (T : XorTable) (ct : Nat) (data : Bytes)
+    (hg : encodeTooLarge (xorInst T.k T.m ct) data.length = false) :
     ∃ enc, encode env (xorBackend T) (xorInst T.k T.m ct) data = .ok enc := by
   have hs : IsStripe (xorBackend T) T.k T.m (blockSize (xorInst T.k T.m ct) data.length)
       (splitLoop T.k (blockSize (xorInst T.k T.m ct) data.length) data)
       ((List.range T.m).map fun j => interp (blockSize (xorInst T.k T.m ct) data.length)
         (splitLoop T.k (blockSize (xorInst T.k T.m ct) data.length) data) (T.pbm j)) :=
     (xor_isStripe_iff T _ _ _).2 ⟨splitLoop_length _ _ _, splitLoop_elem_length _ _ _, rfl⟩
-  exact encode_ok_of_backend env _ (xorInst T.k T.m ct) data _ _ hs.enc
+  exact encode_ok_of_backend env _ (xorInst T.k T.m ct) data _ _ hg hs.enc
 
 /-- flat XOR, every shape `init_xor_hd_code` accepts: fewer than hd fragments missing. -/
 theorem roundtrip_xor (env : Env) (k m hd ct : Nat) (T : XorTable) (hT : LecGen.xorTableFor hd m k = some T)
     (hct : ct < 256) (hlv : env.libver < 2 ^ 32) (hl0 : env.libver ≠ 0)
-    (data : Bytes) (hlen : data.length < 2 ^ 31 - 2 ^ 12) :
+    (data : Bytes) (hg : encodeTooLarge (xorInst k m ct) data.length = false) :
     ∃ enc, encode env (xorBackend T) (xorInst k m ct) data = .ok enc ∧
       ∀ frags : List Bytes, (∀ f ∈ frags, f ∈ enc) → (missingOfStripe enc frags).length < hd →
         k ≤ frags.length → ∀ force,
@@ -76,12 +92,26 @@ theorem roundtrip_xor (env : Env) (k m hd ct : Nat) (T : XorTable) (hT : LecGen.
   obtain ⟨hmem, rfl, rfl, rfl⟩ := XorCheck.tableFor_fields hT
   have hshape : xorShapeOK T.k T.m T.hd = true := by rw [xorTables_whitelist, hT]; rfl
   obtain ⟨hE, hD, _, h1, h2⟩ := xor_contracts_for hT
-  obtain ⟨enc, henc⟩ := xor_encode_exists env T ct data
+  obtain ⟨enc, henc⟩ := xor_encode_exists env T ct data hg
   refine ⟨enc, henc, ?_⟩
   intro frags hsub hmiss hn force
   exact roundtrip env _ (xorInst T.k T.m ct) data enc frags hE hD trivial
-    (xor_frontOK env T.k T.m T.hd ct data.length hshape hct hlv hl0 hlen) (by simp [xorBackend, xorInst])
+    (xor_frontOK_guard env T.k T.m T.hd ct data.length hshape hct hlv hl0 hg) (by simp [xorBackend, xorInst])
     henc hsub hmiss (by simp only [xorInst]; omega) hn force
+
+/-- `roundtrip_xor` under the earlier hypothesis on the length. -/
+theorem roundtrip_xor_small (env : Env) (k m hd ct : Nat) (T : XorTable) (hT : LecGen.xorTableFor hd m k = some T)
+    (hct : ct < 256) (hlv : env.libver < 2 ^ 32) (hl0 : env.libver ≠ 0)
+    (data : Bytes) (hlen : data.length < 2 ^ 31 - 2 ^ 12) :
+    ∃ enc, encode env (xorBackend T) (xorInst k m ct) data = .ok enc ∧
+      ∀ frags : List Bytes, (∀ f ∈ frags, f ∈ enc) → (missingOfStripe enc frags).length < hd →
+        k ≤ frags.length → ∀ force,
+        decode env (xorBackend T) (xorInst k m ct) frags
+          (80 + blockSize (xorInst k m ct) data.length) force = .ok data := by
+  refine roundtrip_xor env k m hd ct T hT hct hlv hl0 data ?_
+  obtain ⟨hmem, rfl, rfl, rfl⟩ := XorCheck.tableFor_fields hT
+  have hshape : xorShapeOK T.k T.m T.hd = true := by rw [xorTables_whitelist, hT]; rfl
+  exact xor_guard_of_small T.k T.m T.hd ct data.length hshape hlen
 
 /-- non-vacuity: (k,m) = (2,1), five bytes, the first data fragment dropped, forced checks. -/
 example :
@@ -97,4 +127,6 @@ example :
 #print axioms roundtrip
 #print axioms roundtrip_rs
 #print axioms roundtrip_xor
+#print axioms roundtrip_rs_small
+#print axioms roundtrip_xor_small
 end LecProps.C01
